@@ -175,7 +175,7 @@ def gen_plan(seed, tier="quick", variant=None):
                                "code": rng.choice([14, 15, 16, 7, 12, 22, 25, 999]), "count": rng.choice([1, 1, 2, 5])})
             elif kind == "corrupt":
                 faults.append({"kind": "corrupt", "entry": rng.randint(0, 30), "pos": rng.random(), "burst": rng.choice([1, 1, 2, 8, 32]),
-                               "heal": rng.random() < 0.7})
+                               "heal": rng.random() < 0.7 or cons["retry_max"] < 0.5})
     t_faults_end = round(max([horizon * 2.2] + [f["t"] for f in faults if "t" in f] + [o["t"] for o in ops if "t" in o]) + 0.01, 6)
     plan = {"family": FAMILY, "seed": seed, "tier": tier, "cfg": cfg, "log": log, "ops": ops, "proc": proc, "faults": faults,
             "t_faults_end": t_faults_end}
@@ -380,7 +380,7 @@ def _run(w, plan):
 
     def api_hook(inc, kind, rec):
         s = cur_session(inc)
-        if s is None:
+        if s is None or not inc.alive:
             return
         if kind == "call":
             rec["session"] = s
@@ -400,7 +400,13 @@ def _run(w, plan):
                 # (only invocations begun before the last successful one completed count: an application that
                 # rewinds and re-delivers old offsets afterwards has not made the earlier progress untrue)
                 horizon = good[-1]["seq_done"] if good else -1
-                rec["bad_below"] = sorted(set(o for ss in inc.sessions for p in ss["procs"] if p["seq"] < horizon
+                # ... and a restart the application requested at an explicit position (number, earliest, latest) is a
+                # permitted discontinuity: what was delivered before it is no longer owed
+                first = 0
+                for i_, ss in enumerate(inc.sessions):
+                    if ss["start_kind"] != "committed":
+                        first = i_
+                rec["bad_below"] = sorted(set(o for ss in inc.sessions[first:] for p in ss["procs"] if p["seq"] < horizon
                                               for o in p["offsets"] if o <= pl[0].offset and o not in okset))
             if s["stopped"]:
                 res.violate("C13", "C13:client-request-after-stop:%s" % rec["name"], "consumer issued %s after stop() returned" % rec["name"], sim)
@@ -409,6 +415,10 @@ def _run(w, plan):
         return 0
 
     def processor(inc, msgs):
+        if not inc.alive:
+            # the process is dead; Python cannot abort the call stack it died in, whatever still runs there is an
+            # artefact that cannot touch the world (its transports and timers are gone)
+            return None
         s = cur_session(inc)
         inc.proc_n += 1
         k = inc.proc_n
@@ -421,8 +431,6 @@ def _run(w, plan):
             res.violate("C02", "C02:processor-invoked-while-previous-result-pending", "invocation %d began while %d was pending" % (k, inc.pending["k"]), sim)
         if s["stopped"]:
             res.violate("C13", "C13:processor-invoked-after-stop", "invocation %d (offsets %d..%d) after stop() returned" % (k, msgs[0].offset, msgs[-1].offset), sim)
-        if not inc.alive:
-            raise HarnessError("dead process ran the processor")
         s["procs"].append(rec)
         for m in msgs:
             s["delivered"].append((m.offset, m.message.key, m.message.value, rec))
@@ -431,6 +439,11 @@ def _run(w, plan):
             res.probe("op_from_inside_processor_" + o["op"])
             do_op(o)
         after_ops = triggers["proc"].pop((k, "after"), ())
+        if not inc.alive:
+            rec["done"] = True
+            rec["ok"] = False
+            rec["seq_done"] = len(sim.log)
+            raise RuntimeError("process killed inside the processor")
 
         def finish(ok):
             rec["done"] = True
@@ -546,6 +559,13 @@ def _run(w, plan):
                 except RestopError:
                     state["in_stop"] = False
                     sim.record("restop")
+                    return
+                except Exception as e:
+                    state["in_stop"] = False
+                    res.violate("C13", "C13:stop-raised:%s:%s" % (type(e).__name__, "+".join(sorted(act))),
+                                "stop() raised %r (activities at the call: %r, shutdown pending: %r)" % (e, act, s["shutdown_called"]), sim)
+                    sim.record("stop_raised", type(e).__name__)
+                    mark_stopped(inc, s, "stop")
                     return
                 state["in_stop"] = False
                 mark_stopped(inc, s, "stop")
@@ -670,7 +690,7 @@ def _run(w, plan):
 
     run_until(plan["t_faults_end"] + 0.001)
     # fault-free tail: long enough for the configured maxima (unbounded retries are bounded by retry_max)
-    tail = plan["t_faults_end"] + 20 * max(cc["retry_max"], 1.0) + 3 * cfg["client"]["timeout_ms"] / 1000.0 + 30.0
+    tail = plan["t_faults_end"] + 3 * max(cc["retry_max"], 1.0) + 4 * cfg["client"]["timeout_ms"] / 1000.0 + 10.0
 
     def caught_up():
         inc = state["inc"]
@@ -679,11 +699,14 @@ def _run(w, plan):
         s = cur_session(inc)
         if s is None or s["stopped"] or s["start_w"].fires:
             return not any(not c_["done"] for c_ in inc.obs.calls) or True
-        d = s["delivered"]
-        last = part.messages()[-1].offset if part.messages() else None
-        if last is None:
-            return True
-        return bool(d) and d[-1][0] >= last and inc.pending is None
+        if inc.pending is not None:
+            return False
+        # the consumer's most recent fetch asks for the log end and was served without error
+        for e in reversed(cl.served_fetches[-6:]):
+            if e["pid"] == inc.pid and e["logseq"] > s["seq"]:
+                sv = e["served"][0]
+                return sv["error"] == 0 and sv["offset"] >= part.leo and e["t"] > plan["t_faults_end"]
+        return False
 
     while sim.now < tail and not sim.overrun and not sim.livelock and res.harness_error is None:
         run_until(sim.now + 2.0)
